@@ -42,7 +42,8 @@ Definition shaped_case (strict live param : bool) (c : cons_t) (x : sdata0) (ops
 Definition ser_rec (r : rec0) : tree :=
   Nd [ser_state (rg FN r); ser_cons (rcons FN r); ser_float (rdt FN r); ser_float (rdur FN r); ser_bool (rincl FN r);
       ser_bool (rvalid FN r); ser_bool (rignored FN r);
-      ser_bool (rparam FN r && match st (rg FN r) with SNone => false | _ => true end)].
+      ser_bool (rparam FN r && match st (rg FN r) with SNone => false | _ => true end);
+      ser_cons (user_cons FN r)].
 
 Definition rstep0 : rec0 -> rop FN -> rec0 * option xerr * option (@output Z Z) :=
   @rstep FN Z Z castZ promoteZ Z.eqb 0%Z 2%Z.
